@@ -861,6 +861,13 @@ func vCfg(f []string) (res string) {
 	if !waitCall(&lock.lockCalls, sentLock, callWait) {
 		return strings.Join(append(out, "NOLOCKCALL"), " ")
 	}
+	// requests that arrive after an event that is not a tick of the script (lock error, expiry): "+<ids>"
+	extras := func() string {
+		if ex := take(); len(ex) > 0 {
+			return fmtIDs("+", ex)
+		}
+		return ""
+	}
 	for k := 0; k < nev; k++ {
 		switch next() {
 		case "k":
@@ -900,14 +907,14 @@ func vCfg(f []string) (res string) {
 				sentLock++
 				// the loop sleeps 100 ms and calls Lock() again
 				waitCall(&lock.lockCalls, sentLock, callWait)
-				out = append(out, "E"+pendLetter())
+				out = append(out, "E"+pendLetter()+extras())
 			} else {
-				out = append(out, "!E"+pendLetter())
+				out = append(out, "!E"+pendLetter()+extras())
 			}
 		case "x":
 			nc.App.ZookeeperExpired.Broadcast()
 			waitCall(&lock.unlockCalls, sentUnlock, 100*time.Millisecond*m)
-			out = append(out, "X"+pendLetter())
+			out = append(out, "X"+pendLetter()+extras())
 		case "t":
 			now := nextI()
 			if slow {
